@@ -114,13 +114,21 @@ class Run:
         """make the given .vo targets (and their closure) under a lock.
         returns (ok, log)"""
         gen_coqproject()
+        mk = COQ / "Makefile"
+        if mk.exists() and mk.stat().st_mtime >= (COQ / "_CoqProject").stat().st_mtime:
+            # nothing to do?  then do not queue behind other people's builds
+            rc, out, err = sh(["make", "-q"] + [t for t in targets], cwd=COQ, timeout=300)
+            if rc == 0:
+                return True, "up to date"
         lock = open(BUILD / "coq.lock", "w")
         fcntl.flock(lock, fcntl.LOCK_EX)
         try:
             if not (COQ / "Makefile").exists() or \
                (COQ / "Makefile").stat().st_mtime < (COQ / "_CoqProject").stat().st_mtime:
                 sh(["coq_makefile", "-f", "_CoqProject", "-o", "Makefile"], cwd=COQ, check=True)
-            rc, out, err = sh(["make", "-j16"] + [t for t in targets], cwd=COQ, timeout=3000)
+            # every coqc call is capped (a runaway vm_compute in one file must not hold the shared
+            # lock for everybody); the whole make as well
+            rc, out, err = sh(["make", "-j16", "COQC=timeout 900 coqc"] + [t for t in targets], cwd=COQ, timeout=2400)
             return rc == 0, out + err
         finally:
             fcntl.flock(lock, fcntl.LOCK_UN)
